@@ -33,6 +33,9 @@ FIX={ 'fbd346f':(['C07'],'revert: zero-length datagram guard in runProtocol'),
  '632752b':(['C17'],'revert: ql.Close before pc.Close'),
  '86ec531':(['C17'],'revert: guarded send in SendPing forwarder'),
  '28f91d1':(['C17'],'revert: guarded send in SubscribeUnreachable forwarder'),
+ '9704e8c':(['C07'],'revert: ping service ignores packets from a ping service'),
+ 'a90d3d2':(['C17'],'revert: runProtocol cancels its session context on return'),
+ 'e505b94':(['C07'],'revert: UDP listener session signals closure to the shared listener goroutine'),
 }
 for c,(props,what) in FIX.items():
     out=subprocess.check_output(['git','-C',REPO,'show','--format=',c,'--','.',':!*_test.go'])
@@ -235,5 +238,10 @@ try:
 finally:
     subprocess.call(['git','-C',REPO,'worktree','remove','--force',tmp+'/wt'])
     shutil.rmtree(tmp,ignore_errors=True)
+# 4. hand-written diffs kept as files (mutants/hand2/index.json)
+try:
+    index.extend(json.load(open(f'{V}/mutants/hand2/index.json')))
+except FileNotFoundError:
+    pass
 json.dump(index,open(f'{V}/mutants/index.json','w'),indent=1)
 print(len(index),'mutants')
